@@ -5,5 +5,6 @@ P=$(realpath "$1"); shift
 cd /verif
 git -C /repo diff --quiet || { echo "/repo has local changes"; exit 2; }
 git -C /repo apply "$P" || { echo "patch does not apply to /repo"; exit 2; }
-trap 'git -C /repo checkout -q -- .' EXIT
+trap 'git -C /repo checkout -q -- .; rm -rf "$TMPD"' EXIT
+TMPD=$(mktemp -d /tmp/verif-seedrun-XXXXXX); export VERIF_EVIDENCE_DIR=$TMPD/ev VERIF_REPORT_DIR=$TMPD/rep; mkdir -p $TMPD/ev $TMPD/rep   # never overwrite /verif/evidence with results of a patched tree
 if [ $# -eq 0 ]; then ./check all --tier quick 2>&1 | grep -E "^== |VIOLATION|violated:|ANALYSIS-BROKEN"; else for p in "$@"; do ./check $p --tier quick 2>&1 | grep -E "VIOLATION|violated:|ANALYSIS-BROKEN|tier="; done; fi
